@@ -141,7 +141,9 @@ def ask(c, kind, args):
             if i.get("additionalTextEdits"):
                 e = i["additionalTextEdits"][0]
                 ed = f"{e['range']['start']['line']}:{e['range']['start']['character']}:{hexs(e['newText'])}"
-            out.append(f"{i['label']}|{i.get('sortText')}|{hexs(i.get('detail') or '')}|{hexs(i.get('insertText') or '')}|{i.get('kind')}|{ed}")
+            doc = i.get("documentation")
+            doc = doc.get("value", "") if isinstance(doc, dict) else (doc or "")
+            out.append(f"{i['label']}|{i.get('sortText')}|{hexs(i.get('detail') or '')}|{hexs(i.get('insertText') or '')}|{i.get('kind')}|{ed}|{hexs(doc)}")
         return listed(out)
     if kind == "action":
         p, l, ch = args[0], int(args[1]), int(args[2])
